@@ -277,7 +277,8 @@ pub fn run(a: &Args) -> i32 {
             return 2;
         }
     }
-    rep.mandatory = vec!["direct_table_queries".into(), "walk_attack_queries".into(), "generator_draws_checked".into()];
+    near_key_arrangements("C11", &sink, &mut rep);
+    rep.mandatory = vec!["direct_table_queries".into(), "walk_attack_queries".into(), "generator_draws_checked".into(), "near_key_bits_covered".into()];
     if a.tier == "thorough" {
         if let Err(e) = crate::draws::run_draws("C11", 4, &mut rep, &sink) {
             eprintln!("MACHINERY-ERROR: {}", e);
@@ -505,4 +506,142 @@ fn generator_draws(k: usize, sink: &Sink) -> Result<(u64, u64, u64), String> {
         sb += b;
     }
     Ok((k as u64, e, sb))
+}
+
+/// Arrangements whose position keys differ in exactly ONE bit.  The reported attack set goes
+/// through a cache keyed on the position key; a cache that drops or truncates part of the key is
+/// only exposed by two arrangements that agree on the part it keeps.  The key is an XOR of
+/// per-(piece, square) constants, read here black-box; for every bit i a set of extra pieces T_i
+/// is found by Gaussian elimination over GF(2) (one candidate piece per free square, several
+/// assignments of kinds to squares) such that key(Q on d4 + T_i) = key(Q on d4) xor 2^i (checked on
+/// real boards).  One generator is asked about the base arrangement and then about all the
+/// others, a second one the other way round; every answer is compared with the ray-walking model.
+pub fn near_key_arrangements(owner: &str, sink: &Sink, rep: &mut Report) {
+    const BASE_SQ: u8 = 27; // d4
+    let key_of = |pieces: &[(Kind, Side, u8)]| -> u64 {
+        let mut b = Board::new();
+        for &(k, sd, q) in pieces {
+            b.put(bb(q), piece_of(k), color_of(sd)).unwrap();
+        }
+        b.current_position_hash()
+    };
+    let h0 = key_of(&[]);
+    let base = [(Kind::Queen, Side::White, BASE_SQ)];
+    let hbase = key_of(&base);
+    let kinds: Vec<(Kind, Side)> = [Side::White, Side::Black].iter().flat_map(|sd| [Kind::Pawn, Kind::Knight, Kind::Bishop, Kind::Rook, Kind::Queen].into_iter().map(move |k| (k, *sd))).collect();
+    let mut solved: Vec<Option<Vec<(Kind, Side, u8)>>> = vec![None; 64];
+    for round in 0..40usize {
+        if solved.iter().all(|x| x.is_some()) {
+            break;
+        }
+        // one candidate piece per free square
+        let cand: Vec<(Kind, Side, u8)> = (0..64u8)
+            .filter(|q| *q != BASE_SQ)
+            .map(|q| {
+                // fixed pseudo-random assignment of kinds to squares, different in every round
+                let mix = (q as u64 + 1).wrapping_mul(0x9E3779B97F4A7C15).wrapping_add((round as u64 + 1).wrapping_mul(0xD1B54A32D192ED03));
+                let mut i = ((mix ^ (mix >> 29)) % kinds.len() as u64) as usize;
+                // no pawns on the first / last rank
+                if kinds[i].0 == Kind::Pawn && (q / 8 == 0 || q / 8 == 7) {
+                    i = (i + 1) % kinds.len();
+                }
+                (kinds[i].0, kinds[i].1, q)
+            })
+            .collect();
+        // basis[b] = (vector with highest set bit b, combination as a mask over `cand`)
+        let mut basis: Vec<Option<(u64, u64)>> = vec![None; 64];
+        for (ci, c) in cand.iter().enumerate() {
+            let mut v = key_of(&[*c]) ^ h0;
+            let mut combo = 1u64 << ci;
+            while v != 0 {
+                let hb = 63 - v.leading_zeros() as usize;
+                match basis[hb] {
+                    Some((bv, bc)) => {
+                        v ^= bv;
+                        combo ^= bc;
+                    }
+                    None => {
+                        basis[hb] = Some((v, combo));
+                        break;
+                    }
+                }
+            }
+        }
+        for bit in 0..64usize {
+            if solved[bit].is_some() {
+                continue;
+            }
+            let mut v = 1u64 << bit;
+            let mut combo = 0u64;
+            while v != 0 {
+                let hb = 63 - v.leading_zeros() as usize;
+                match basis[hb] {
+                    Some((bv, bc)) => {
+                        v ^= bv;
+                        combo ^= bc;
+                    }
+                    None => break,
+                }
+            }
+            if v == 0 && combo != 0 {
+                let extra: Vec<(Kind, Side, u8)> = cand.iter().enumerate().filter(|(ci, _)| combo >> ci & 1 == 1).map(|(_, c)| *c).collect();
+                let mut all = base.to_vec();
+                all.extend(extra.iter().copied());
+                // the construction is checked on real boards; if the key were not an XOR of
+                // per-piece constants this would simply not hold and the bit stays uncovered
+                if key_of(&all) ^ hbase == 1u64 << bit {
+                    solved[bit] = Some(all);
+                }
+            }
+        }
+    }
+    let covered = solved.iter().filter(|x| x.is_some()).count() as u64;
+    rep.add("near_key_bits_covered", covered);
+    if covered < 64 {
+        rep.notes.push(format!("near-key arrangements: only {} of the 64 key bits have a pair of arrangements differing in exactly that bit", covered));
+    }
+    let to_pos = |pieces: &[(Kind, Side, u8)]| -> Pos {
+        let mut p = Pos::empty();
+        for &(k, sd, q) in pieces {
+            p.sq[q as usize] = Some((k, sd));
+        }
+        p
+    };
+    let board_of = |pieces: &[(Kind, Side, u8)]| -> Board {
+        let mut b = Board::new();
+        for &(k, sd, q) in pieces {
+            b.put(bb(q), piece_of(k), color_of(sd)).unwrap();
+        }
+        b
+    };
+    let describe = |pieces: &[(Kind, Side, u8)]| pieces.iter().map(|(k, sd, q)| format!("{}{:?}@{}", if *sd == Side::White { "w" } else { "b" }, k, sq_name(*q))).collect::<Vec<_>>().join(" ");
+    let others: Vec<(usize, Vec<(Kind, Side, u8)>)> = solved.iter().enumerate().filter_map(|(i, x)| x.clone().map(|v| (i, v))).collect();
+    let mut asked = 0u64;
+    for order in ["base first", "base last"] {
+        let mut g = MoveGenerator::new();
+        let mut seq: Vec<(Option<usize>, Vec<(Kind, Side, u8)>)> = others.iter().map(|(i, v)| (Some(*i), v.clone())).collect();
+        if order == "base first" {
+            seq.insert(0, (None, base.to_vec()));
+        } else {
+            seq.push((None, base.to_vec()));
+        }
+        for (bit, pieces) in seq.iter() {
+            let b = board_of(pieces);
+            let p = to_pos(pieces);
+            for side in [Side::White, Side::Black] {
+                asked += 1;
+                match guarded(|| g.get_attack_targets(&b, color_of(side)).0) {
+                    Ok(got) => {
+                        let want = p.attack_map(side);
+                        if got != want {
+                            sink.push(Violation { prop: owner.into(), class: "attack-set-of-an-arrangement-with-a-nearby-key".into(), seed: describe(pieces), path: vec![], detail: format!("one generator asked about arrangements whose keys differ from the key of [{}] in exactly one bit ({}): for [{}] (bit {:?}) colour {:?} it reports {:#018x}, walking the rays gives {:#018x}", describe(&base), order, describe(pieces), bit, side, got, want), extra: json!({"kind": "c11-nearkey"}) });
+                        }
+                    }
+                    Err(e) => sink.push(Violation { prop: owner.into(), class: "attack-query-panics".into(), seed: describe(pieces), path: vec![], detail: e, extra: json!({"kind": "c11-nearkey"}) }),
+                }
+            }
+        }
+    }
+    rep.add("near_key_attack_queries", asked);
+    rep.transitions += asked;
 }
